@@ -584,3 +584,19 @@ seeded('seeded-R9C20-distance-fallback-near-goal', ['C20'], ['C20.goal'])
 for _n in ('ben23-r2', 'ben23-r3', 'ben23-r4', 'ben24-r1', 'ben24-r2', 'ben24-r3', 'ben24-r4', 'ben24-r5', 'ben25-r1', 'ben25-r3', 'ben25-r4',
            'ben25-r5', 'ben26-r1', 'ben26-r2', 'ben26-r3', 'ben26-r4', 'ben26-r5'):
     benign_patch(_n, ALL)                                       # deep restructurings that the machinery follows (the three it does not are in selftest/benign/unsupported, DESIGN 10.20)
+
+# ---------------------------------------------------------------- round 10
+seeded('seeded-RAC01-goal-root-redraw-unvalidated', ['C01', 'C15', 'C16'], ['C01.root'])
+seeded('seeded-RAC03-start-links-reused-after-new-start', ['C03', 'C05'], ['C03.link'])
+seeded('seeded-RAC04-narrow-cone-direct-sampling', ['C11', 'C14', 'C06'], ['C11.same'])
+seeded('seeded-RAC07-neighbours-in-hashmap', ['C07', 'C17'], ['C07.source'])
+seeded('seeded-RAC08-budget-duration-from-negative', ['C08', 'C06'], ['C08.panics'])
+seeded('seeded-RAC09-zero-weight-break', ['C09', 'C13'], ['C13.index'])
+seeded('seeded-RAC10-so2-rem-euclid-tie', ['C10', 'C04'], ['C04.convex'])
+seeded('seeded-RAC13-skip-stationary-component', ['C13'], ['C13.match'])
+seeded('seeded-RAC14-signed-dot-cone-test', ['C14', 'C11'], ['C14.so3'])
+seeded('seeded-RAC15-zero-step-motion-unchecked', ['C15', 'C01', 'C03'], ['C01.kernel'])
+for _k in (1, 2, 3, 4, 5):
+    benign_patch('ben27-r%d' % _k, ['C19', 'C20', 'C08'])       # oxmpl-js: f64_property helper, let-else in goal callbacks, macro-generated checker impls, map/map_err in sample(), merged match in setup
+    benign_patch('ben28-r%d' % _k, ALL)                         # RRT/RRT*: sample_target fn, Nearest struct via fold, store_problem/reset_tree (&mut self helpers), choose_parent + filter/map/collect neighbours, rewired_cost + successors
+    benign_patch('ben29-r%d' % _k, ALL)                         # compound/SE2/SE3: weighted_norm(closure), enumerate loops, getters via accessors, guard clause + hoisted constructors, generic downcast helpers
